@@ -178,6 +178,39 @@ def check_inverted(case):
     return dict(nontrivial=True, labels=["inverted-large"])
 
 
+# ---------------------------------------------------------------------- a packed class among very many scores
+def _packed_cases(tier):
+    """Thousands of scores of one class packed 1e-12 apart inside the central gap of 2e5-6e5 scores of the
+    other class: each inverse curve resolves thresholds only to (its class size x its local spacing) x 1e-16,
+    so it matters which of the two the threshold is read from."""
+    sizes = [(200_000, 2000, 1e-12), (600_000, 4000, 1e-12)] if tier == "quick" else \
+        [(200_000, 2000, 1e-12), (600_000, 4000, 1e-12), (300_000, 1000, 1e-11), (100_000, 3000, 1e-12)]
+    for n_wide, n_packed, sp in sizes:
+        for which in ("pos", "neg"):
+            for sc, ec in CONFIGS:
+                yield dict(n_wide=n_wide, n_packed=n_packed, sp=sp, which=which, sc=sc, ec=ec)
+
+
+def check_packed(case):
+    n_wide, n_packed, sp, which, sc, ec = (case[k] for k in ("n_wide", "n_packed", "sp", "which", "sc", "ec"))
+    half = n_wide // 2
+    wide = np.concatenate([-1000.0 + 999.0 * np.arange(half) / half, 1.0 + 999.0 * np.arange(n_wide - half) / (n_wide - half)])
+    packed = 0.125 + sp * np.arange(n_packed)
+    pos, neg = (packed, wide) if which == "pos" else (wide, packed)
+    from score_analysis import Scores
+
+    s = Scores(pos, neg, score_class=sc, equal_class=ec)
+    t, e = s.eer()
+    t, e = float(t), float(e)
+    P, Nn = len(pos), len(neg)
+    fpr, fnr = float(s.fpr(t)), float(s.fnr(t))
+    ctx = f"{n_packed} {which} scores {sp} apart inside the gap of {n_wide} scores of the other class, config={sc}/{ec}"
+    require(abs(fpr - e) <= 2.0 / Nn + 1e-9 and abs(fnr - e) <= 2.0 / P + 1e-9, "eer:fpr-crossing",
+            f"{ctx}: t={t!r} eer={e!r} FPR(t)={fpr!r} (off by {abs(fpr - e) * Nn:.1f} samples) FNR(t)={fnr!r} "
+            f"(off by {abs(fnr - e) * P:.1f} samples)")
+    return dict(nontrivial=0 < e < 1, labels=["packed-large"])
+
+
 # ---------------------------------------------------------------------- zero clause
 @st.composite
 def _any_scores(draw):
@@ -275,6 +308,8 @@ PROP = Prop(
                quick_shards=6, min_nontrivial=100, doc="defining relation, cap, equivariance"),
         Clause("inverted_large", check_inverted, kind="enum", cases=_inverted_cases, quick_shards=4, shards=8,
                min_nontrivial=10, doc="~1000 inverted scores per class, close hard-sample fractions"),
+        Clause("packed_large", check_packed, kind="enum", cases=_packed_cases, quick_shards=8, shards=16,
+               min_nontrivial=4, doc="2000-4000 scores 1e-12 apart inside a gap of 2e5-6e5 scores of the other class"),
         Clause("zero", check_zero, strategy=st.one_of(_any_scores(), _any_scores(), _any_scores(), _narrow_scores(), _narrow_scores(), _longdouble_scores()), quick=250, thorough=4800, quick_shards=2,
                min_nontrivial=50, doc="reported EER 0 comes with an error-free threshold"),
     ],
